@@ -14,7 +14,10 @@ func registerMore(m map[string]propSpec) {
 		{Harness: "faults", Overlay: "base", Name: "answers"},
 		{Harness: "faults", Overlay: "base", Name: "cuts", Shards: 2},
 	}}
-	m["C08"] = propSpec{Level: "model_checking", Engines: []engine{{Harness: "reg", Overlay: "base", Name: "sched", Shards: 8}}}
+	m["C08"] = propSpec{Level: "model_checking", Engines: []engine{
+		{Harness: "reg", Overlay: "base", Name: "sched", Shards: 8},
+		{Harness: "reg", Overlay: "base", Name: "race", Race: true},
+	}}
 	m["C12"] = propSpec{Level: "model_checking", Engines: []engine{{Harness: "codec", Overlay: "base", Shards: 8}}}
 	m["C14"] = propSpec{Level: "model_checking", Engines: []engine{{Harness: "conv", Overlay: "base"}}}
 	m["C15"] = propSpec{Level: "model_checking", Engines: []engine{{Harness: "stubsub", Overlay: "base", Shards: -1}}}
